@@ -174,7 +174,12 @@ var funcRoles = map[string]funcRole{
 		return sigShape(fn, true, nil, []string{"types.PersistentState"})
 	},
 	"|WAL.createNextSegment": func(p *Prog, fn *ssa.Function) bool {
-		return sigShape(fn, true, []string{""}, []string{"func() error", "error"}) && typeEnds(fn.Signature.Recv().Type(), ".WAL")
+		sig := fn.Signature
+		if sig.Recv() == nil || !typeEnds(sig.Recv().Type(), ".WAL") || sig.Params().Len() < 1 || sig.Results().Len() != 2 {
+			return false
+		}
+		_, ptr := sig.Params().At(0).Type().(*types.Pointer)
+		return ptr && typeEnds(sig.Results().At(0).Type(), "func() error") && isErrorType(sig.Results().At(1).Type())
 	},
 	"verifier|LogStore.verify": func(p *Prog, fn *ssa.Function) bool {
 		return sigShape(fn, true, []string{"*github.com/hashicorp/raft-wal/verifier.VerificationReport"}, nil)
